@@ -451,3 +451,15 @@ func DecodeOne(msg []byte) ServerPacket {
 	}
 	return DecodeServerPacket(msg)
 }
+
+// DecodeUTF16LEKeep decodes without dropping a trailing NUL.
+func DecodeUTF16LEKeep(b []byte) (string, bool) {
+	if len(b)%2 != 0 {
+		return "", false
+	}
+	u := make([]uint16, len(b)/2)
+	for i := range u {
+		u[i] = binary.LittleEndian.Uint16(b[2*i:])
+	}
+	return string(utf16.Decode(u)), true
+}
